@@ -556,7 +556,11 @@ impl<'t> Gen<'t> {
             let op = match k {
                 0 | 1 => Some(self.gen_map()),
                 2 => Some(UnOp::Shuffle),
-                3 => Some(self.gen_gb()),
+                3 => Some(match self.gen_gb() {
+                    // a keyed rich_map keeps its per-key state across iterations by design
+                    UnOp::Gb(GbForm::RichCounter, a) => UnOp::Gb(GbForm::Fold, a),
+                    o => o,
+                }),
                 4 => Some(UnOp::Batch(gen_bm(self.t, self.p.small_batches))),
                 5 => Some(self.gen_gl()),
                 _ => None,
